@@ -109,7 +109,7 @@ theorem httpSend_head (fuel : Nat) (w : World) (i : Nat) (status : Int) (reason 
   cases hk : (w.get i).rx.request.keepAlive <;> cases hcont : (status == (Gen.statusContinue : Int)) <;>
     rcases hovl with h | h <;> subst h <;> cases hb : body.isEmpty <;>
     simp [wHead, wGet, httpSend, httpSendTail, sendData, disconnectConn, respVersion, aux_get_upd_self, hi,
-      halive, hc, ht, hv, hk, hcont, hb]
+      halive, hc, ht, hv, hk, hcont, hb, Gen.continueKeepsOpen]
 
 /-! ### C10 / C11: the history invariant -/
 
